@@ -1,4 +1,4 @@
-//@ assume: UTXOView / Batch / Block / Transaction / Inputs are abstract; validate_output (refuses an indexed, still-unspent duplicate commitment) and validate_input are under contract on the real code in C02/utxo_view; validate_inputs (an iterator chain mapping validate_input over the inputs) is an abstract callee here
+//@ assume: UTXOView / Batch / Block / Transaction / Inputs are abstract; validate_output (refuses an indexed, still-unspent duplicate commitment) and validate_input are under contract on the real code in C02/utxo_view; validate_inputs (an iterator chain mapping validate_input over the inputs; its element closures are decided in C02/validate_inputs) is an abstract callee here
 //@ assume: T6 rewrites: `for output in block.outputs() {` / `for output in tx.outputs() {` => Verus iterator loops with spliced invariants; lifetimes dropped
 //@ assume: decided here: UTXOView::validate_block and validate_tx return Ok only if EVERY output of the block / transaction passed validate_output (so none duplicates a currently unspent commitment) AND the inputs were resolved by validate_inputs; the result is validate_inputs' result unchanged
 //@ assumed_items: 10
